@@ -32,7 +32,7 @@ fn main() {
             let tier = Tier::parse(&args[3]);
             let t0 = Instant::now();
             let plan = p.plan(tier);
-            let jobs = std::env::var("VERIF_JOBS").ok().and_then(|s| s.parse().ok()).unwrap_or(16usize);
+            let jobs = std::env::var("VERIF_JOBS").ok().and_then(|s| s.parse().ok()).unwrap_or_else(|| std::thread::available_parallelism().map(|n| n.get()).unwrap_or(8).clamp(2, 32));
             let res = orchestrate(p, tier, &plan, jobs);
             let extra = props::extra_evidence(p.id(), tier, &res);
             let v = finish(p.id(), tier, &plan, res, t0.elapsed().as_secs_f64(), p.min_outcomes(), extra);
